@@ -94,9 +94,9 @@ MANIFEST_NOTE = (
     "inverted guard / && spellings of a two-way return, if-else with a DUNE_THROW branch for the guard clause, null tests "
     "(!= nullptr, static_cast<bool>, == false), this->, 'return flag != 0', void validity helpers of the future classes and a "
     "pointer/reference alias of future.req_ in the non-blocking members give the same generated text (self test: "
-    "tools/translators/tr_c19.py --selftest, 16 quiet / 30 loud edits). Still reported although harmless: loops, "
+    "tools/translators/tr_c19.py --selftest, 18 quiet / 32 loud edits); data members of PseudoFuture and Buffer are found by declared type, not by name. Still reported although harmless: loops, "
     "try/catch, helpers with locals or early returns, value helpers in the future classes, members of the nested FutureModel "
-    "defined outside the class, renamed data members of MPIFuture/Buffer/PseudoFuture, reordered statements. The constructors' communicator "
+    "defined outside the class, renamed data members of MPIFuture, reordered statements. The constructors' communicator "
     "argument and GuardCommunicator are not translated (run + oracle only), of the non-blocking members of (mpi)communication.hh "
     "only the construction/return of the future is (lengths, datatypes, the reduction: C07); "
     "finalize() on a guard that is not armed is modelled and proved silent (unarmed_finalize_never_throws) but not generated."
